@@ -43,7 +43,7 @@ EmitRound == PrintT("@@S " \o ToJson(Scenario(hist)))
 Stutter == UNCHANGED gvars
 
 \* simulation
-Weighted == <<"x1", "xinc", "px", "f2", "f10", "pf", "ret", "div", "put", "for", "t", "pt", "pd", "pd", "exc", "if", "px", "pf", "xinc",
+Weighted == <<"x1", "xinc", "px", "f2", "f10", "pf", "ret", "div", "put", "for", "t", "pt", "pd", "pd", "parg", "dn", "pdn", "exc", "if", "px", "pf", "xinc",
               "ex", "ef", "ed", "run", "run", "run", "clear", "list", "list", "save1", "save1", "save2", "load1", "load1", "load2">>
 ByName(w) == IF w \in {x.id : x \in Stmts} THEN StmtById(w)
              ELSE IF w \in {x.id : x \in Exprs} THEN CHOOSE x \in Exprs : x.id = w
